@@ -12,11 +12,8 @@ def runModel (c : Case) : String × List String :=
     | 0, _ => some (acc.reverse, tags.reverse)
     | _, [] => some (acc.reverse, tags.reverse)
     | fuel + 1, op :: rest =>
-      if opPanics s op then none
-      else
-        let (s', r, tag) := execOp s op
-        if snapPanics s'.buf then none
-        else go s' rest ((showRes r ++ " " ++ showSnap c.sim s') :: acc) (tag :: tags) fuel
+      let (s', r, tag) := execOp s op
+      go s' rest ((showRes r ++ " " ++ showSnap c.sim s') :: acc) (tag :: tags) fuel
   match go s0 c.ops [] [] (c.ops.length + 1) with
   | none => ("panic", ["panic"])
   | some (recs, tags) => (";".intercalate recs, tags)
